@@ -394,3 +394,24 @@ class HSymSet:
 
     def copy(self):
         return HSymSet(self.val)
+
+
+class Coro:
+    """A coroutine object: an `async def` call not yet awaited."""
+
+    def __init__(self, thunk, label="coro"):
+        self.thunk = thunk
+        self.label = label
+        self.done = False
+        self.outcome = None
+
+    def __repr__(self):
+        return f"Coro<{self.label}>"
+
+
+class Stream:
+    """Unbounded stream of fresh items of a shape (timers, receivers in `async for`)."""
+
+    def __init__(self, shape, source=None):
+        self.shape = shape
+        self.source = source
